@@ -7,7 +7,7 @@ from . import yee_api as Y
 
 RULE = ("scenes from the seed: 3..5 (thorough 3..7) cells per axis, consistent face pairs (none/periodic/pec/pmc mixes, "
         "bloch pairs with complex fields), uniform or non-uniform grid, 0..2 sources out of UniformPlaneSource, "
-        "GaussianPlaneSource, PointDipoleSource (electric/magnetic) on every axis/direction with SingleFrequency or "
+        "GaussianPlaneSource, PointDipoleSource (electric/magnetic, axis-aligned or tilted by azimuth/elevation) on every axis/direction with SingleFrequency or "
         "GaussianPulse profile and a switch (default, start_after_periods, interval 2, fixed on-steps, always off), "
         "isotropic/diagonal inv_eps, scalar/iso/diagonal inv_mu, optional sigma_E and sigma_H, random wall-projected "
         "state, random step index t of a run of ~8 steps. K: (a) the additive source terms jE, jH are probed from "
@@ -54,6 +54,9 @@ def gen_case(rng, thorough, force=None):
              "switch": rng.choice(["default", "default", "start", "interval", "fixed", "off"]),
              "amp": rng.uniform(0.5, 2.0), "pol": rng.randint(0, 2)}
         s["pos"] = [rng.randint(0, n - 1) for n in c["shape"]]
+        if kind.startswith("dipole") and rng.chance(0.5):
+            # tilted dipole: the injection takes the non-axis-aligned branch of PointDipoleSource.update_E/H
+            s["tilt"] = [rng.uniform(10.0, 70.0) * rng.choice([-1, 1]), rng.uniform(10.0, 50.0) * rng.choice([-1, 1])]
         srcs.append(s)
     c["sources"] = srcs
     c["eps_tier"] = rng.choice([1, 3])
@@ -95,7 +98,8 @@ def make_sources(c, vol):
         else:
             o = f.PointDipoleSource(partial_grid_shape=(1, 1, 1), wave_character=wave, polarization=s["pol"],
                                     source_type="electric" if s["kind"] == "dipole_e" else "magnetic",
-                                    temporal_profile=prof, switch=sw, static_amplitude_factor=s["amp"], name=f"src{i}")
+                                    temporal_profile=prof, switch=sw, static_amplitude_factor=s["amp"], name=f"src{i}",
+                                    azimuth_angle=s.get("tilt", [0.0, 0.0])[0], elevation_angle=s.get("tilt", [0.0, 0.0])[1])
             if c["widths"]:
                 cons.append(o.place_at_center(vol))
             else:
@@ -426,11 +430,17 @@ FORCED = [
          bloch=False, bloch_vector=[0.0, 0.0, 0.0], sig_e=True, sig_h=True,
          sources=[{"kind": "dipole_e", "axis": 0, "direction": "+", "profile": "cw", "switch": "interval", "amp": 0.7, "pol": 1, "pos": [2, 1, 2]},
                   {"kind": "dipole_m", "axis": 0, "direction": "-", "profile": "pulse", "switch": "fixed", "amp": 1.1, "pol": 2, "pos": [1, 1, 1]}], t=5),
+    # tilted magnetic and electric dipoles that are on at t (non-axis-aligned injection branch and its `inverse` sign)
+    dict(shape=[4, 4, 3], faces={k: "periodic" for k in Y.FACES}, bloch=False, bloch_vector=[0.0, 0.0, 0.0], widths=None,
+         sources=[{"kind": "dipole_m", "axis": 0, "direction": "+", "profile": "cw", "switch": "default", "amp": 1.2, "pol": 0, "pos": [1, 2, 1],
+                   "tilt": [35.0, -20.0]},
+                  {"kind": "dipole_e", "axis": 0, "direction": "+", "profile": "cw", "switch": "default", "amp": 0.8, "pol": 2, "pos": [2, 1, 1],
+                   "tilt": [-50.0, 25.0]}], t=3),
 ]
 
 
 def run(ctx):
-    n = ctx.scale(10, 150)
+    n = ctx.scale(11, 150)
     cases = [gen_case(ctx.rng, ctx.thorough, f) for f in FORCED]
     while len(cases) < n:
         cases.append(gen_case(ctx.rng, ctx.thorough))
